@@ -14,11 +14,14 @@ VARIABLE t
 
 Ids == 1..NLeaves
 PlainLeaves == {Leaf(i, FALSE) : i \in Ids}
-Siblings == IF ~RichSiblings /\ Depth(t) >= 1 THEN {}   \* basic: above level 1 only solo wrappings
-            ELSE IF RichSiblings
-            THEN PlainLeaves \cup {Leaf(i, TRUE) : i \in Ids} \cup {Not(x) : x \in PlainLeaves}
-                 \cup {Node(kd, n, <<Leaf(1, FALSE), Leaf(2, FALSE)>>) : kd \in Kinds, n \in BOOLEAN}
-            ELSE PlainLeaves \cup {Not(Leaf(1, FALSE)), Node("or", TRUE, <<Leaf(1, FALSE), Leaf(2, FALSE)>>)}
+\* RichSiblings: "basic" = a small pool, used for the first wrapping only (above it only solo wrappings);
+\*               "mid"   = the small pool at every level;  "rich" = the large pool at every level
+SmallPool == PlainLeaves \cup {Not(Leaf(1, FALSE)), Node("or", TRUE, <<Leaf(1, FALSE), Leaf(2, FALSE)>>)}
+LargePool == PlainLeaves \cup {Leaf(i, TRUE) : i \in Ids} \cup {Not(x) : x \in PlainLeaves}
+             \cup {Node(kd, n, <<Leaf(1, FALSE), Leaf(2, FALSE)>>) : kd \in Kinds, n \in BOOLEAN}
+Siblings == CASE RichSiblings = "rich" -> LargePool
+              [] RichSiblings = "mid" -> SmallPool
+              [] OTHER -> IF Depth(t) >= 1 THEN {} ELSE SmallPool
 
 Init == t \in PlainLeaves \cup {Leaf(i, TRUE) : i \in Ids}
 Wrap == /\ Depth(t) < MaxDepth
